@@ -34,6 +34,30 @@ OpEv ==
          [] OTHER -> E.res = "panic" /\ E.obs = o          \* out of bounds: panics, touches nothing
     /\ o' = E.obs
 
+\* huge pages: bytes that changed, header/padding preserved, and before/after readings [x, y, before, after] of a probe set
+OneBit(a, b) == \E n \in 0..7 : BitOf(a, n) # BitOf(b, n) /\ \A k \in 0..7 : k # n => BitOf(a, k) = BitOf(b, k)
+SparseEv ==
+    /\ IsEvent("sparse")
+    /\ LET op == E.op
+           inb == op.x < E.w /\ op.y < E.h
+           P == E.probes
+           IsTarget(q) == q[1] = op.x /\ q[2] = op.y
+       IN
+       /\ E.len_same /\ E.hdr_same /\ E.pad_same                       \* length, header and padding never change
+       /\ \A i \in 1..Len(P) : P[i][3] \in {0, 1} /\ P[i][4] \in {0, 1}  \* in-bounds reads never panic
+       /\ CASE op.k = "setall" -> E.res = "ok" /\ \A i \in 1..Len(P) : P[i][4] = Bit(op.v)
+            [] op.k = "set" /\ inb ->
+                  /\ E.res = "ok"
+                  /\ \A i \in 1..Len(P) : IF IsTarget(P[i]) THEN P[i][4] = Bit(op.v) ELSE P[i][4] = P[i][3]
+                  /\ E.nchanged <= 1                                    \* at most one byte, and in it one bit, changes
+                  /\ (E.nchanged = 1 => OneBit(E.changed[1][2], E.changed[1][3]))
+                  /\ (E.nchanged = 1) = (\E i \in 1..Len(P) : IsTarget(P[i]) /\ P[i][3] # Bit(op.v))
+            [] op.k = "get" /\ inb ->
+                  /\ E.nchanged = 0 /\ \A i \in 1..Len(P) : P[i][4] = P[i][3]
+                  /\ \E i \in 1..Len(P) : IsTarget(P[i]) /\ E.res = (IF P[i][3] = 1 THEN "true" ELSE "false")
+            [] OTHER -> E.res = "panic" /\ E.nchanged = 0 /\ \A i \in 1..Len(P) : P[i][4] = P[i][3]
+    /\ UNCHANGED o
+
 NewEv == /\ IsEvent("new")
          /\ E.bytes = NewBytes(E.id, E.w, E.h)
          /\ E.rid = E.id /\ E.rw = E.w /\ E.rh = E.h
@@ -52,6 +76,6 @@ FromBytesEv ==
        ELSE E.res = "wronglength" /\ E.expected = TotalBytes(E.w, E.h) /\ E.actual = E.len
     /\ UNCHANGED o
 
-Next == PageEv \/ OpEv \/ NewEv \/ Set1Ev \/ FromBytesEv
+Next == PageEv \/ OpEv \/ SparseEv \/ NewEv \/ Set1Ev \/ FromBytesEv
 Spec == Init /\ [][Next]_vars
 =============================================================================
